@@ -138,7 +138,11 @@ def read_bytes(
     else:
         content_type, encoding = detect_encoding(body, default_encoding)
 
-    return body.decode(encoding), encoding, content_type
+    document = body.decode(encoding)
+    # Marks of other encodings (GB18030, UTF-7) are not part of the text.
+    if document.startswith('\ufeff'):
+        document = document[1:]
+    return document, encoding, content_type
 
 
 def detect_encoding(
